@@ -54,6 +54,11 @@
 #define DEFAULT_SORTER_MEMORY		1073741824
 #define MIN_SORTER_MEMORY		10485760
 #define INITIAL_SORTER_VEC_SIZE		131072
+#ifdef MTBL_VERIF
+/* verification hook: let kilobyte-sized inputs produce multi-chunk sorts */
+#undef MIN_SORTER_MEMORY
+#define MIN_SORTER_MEMORY		1
+#endif
 
 #define DEFAULT_FILESET_RELOAD_INTERVAL	60
 
